@@ -45,6 +45,9 @@ GroupOK(e) ==
             /\ (e.res[j].hasmed => e.res[j].med4 = Median4(NumCells(cs)))
             \* DISTINCT applies to whatever the argument is: a constant has one distinct value, a column of numbers as many as it has different numbers
             /\ e.res[j].cnt1 = 1
+            \* COUNT(DISTINCT k2), k2 a text column that is not a grouping key: as many as the texts of the bucket form buckets
+            \* themselves - by the loose equality, or, under --strict-equal, by the strict one (the harness hands over strict cells then)
+            /\ (e.judgeks => e.res[j].cdk = Len(FirstOfBuckets(SelectSeq([k \in 1..Len(idx) |-> e.ks[idx[k]]], LAMBDA rw : ~rw[1].n))))
             /\ (~e.res[j].mixed => e.res[j].cntd = Cardinality({NumCells(cs)[i].f2 : i \in 1..Len(NumCells(cs))}))
             /\ (e.res[j].hassum => /\ NumCells(cs) # <<>>
                                    /\ e.res[j].sum2 = Sum2(NumCells(cs))
